@@ -539,11 +539,13 @@ func runStreamDoor(c *Ctx, idx int, tmp string, shared *compiler.Compiler, share
 // GetInput / GetInputs on both sides of the page boundary.  Oracle only.
 func runStreamAPIPage(c *Ctx, idx int) error {
 	r := c.rng.Fork()
-	base := 0x10000 - r.Range(1, 5) // the first input wire: a few below the page boundary
-	if idx%2 == 1 {
-		base = 0x20000 - r.Range(1, 5)
-	}
 	ni := r.Range(8, 14)
+	n0 := ni / 2 // garbler wires: inputs[0:n0]; the rest is served through GetInputs (the OT hand-off)
+	page := 0x10000 * (1 + idx%2)
+	base := page - n0 - r.Range(1, 3) // the EVALUATOR's wires straddle the page boundary
+	if idx%4 >= 2 {
+		base = page - r.Range(1, n0-1) // the garbler's wires straddle it
+	}
 	inputs := make([]circuit.Wire, ni)
 	for i := range inputs {
 		inputs[i] = circuit.Wire(base + i)
@@ -602,7 +604,6 @@ func runStreamAPIPage(c *Ctx, idx int) error {
 	R := setS(rd.blocks[0])
 	// what the garbler hands out for these wires: one label per garbler wire (all bits 1), the OT
 	// pairs of the rest through GetInputs
-	n0 := ni / 2
 	var slots []ot.Label
 	for i := 0; i < n0; i++ {
 		slots = append(slots, circuit.LabelForBit(stream.GetInput(inputs[i]), true))
@@ -811,10 +812,13 @@ func runC04Doors(c *Ctx) error {
 	return nil
 }
 
-// ---- circuits, accepted by the parsers, in which a gate WRITES AN INPUT WIRE (the family of the
-// known finding F35: circuit.Garbler takes the input labels from Garbled.Wires AFTER garbling).
-// For C04 the question is what those labels are: a free-XOR gate of a wire with itself leaves the
-// pair (0, R) / (R, 0) on the wire it writes.
+// ---- circuit FILES in which a gate WRITES AN INPUT WIRE (finding F43, the C04 face of F35:
+// circuit.Garbler takes the input labels from Garbled.Wires AFTER garbling, and a free-XOR gate of
+// a wire with itself leaves the pair (0, R) / (R, 0) on the wire it writes: the garbler transmitted
+// R itself).  Repaired in /repo by 407ba55: ParseMPCLC / ParseBristol reject such gates.  The door
+// stays in every run: either the parser rejects the file (nothing can leak), or the session runs and
+// its transcript is scanned as always - the old key fires again if the defect ever returns.
+// Circuits with such gates built as Go values are outside the quantifier (no entry point produces them).
 type c04Writer struct {
 	name  string
 	gates []circuit.Gate
